@@ -16,8 +16,9 @@ def hook_cmd(tok, r):
         return 'echo %s >> "$TRACE"; echo {{.UndefinedVariable}}' % tok
     # hooks and conditions SAY something on both streams: what a command prints must not change how its exit status is read
     # (also through an EXTERNAL program and in colour: the output decorators see it as a raw Write of bytes with escape sequences)
-    return ('echo %s >> "$TRACE"; echo "%s speaking"; /usr/bin/printf \'\\033[32m%s in colour\\033[0m\\n\'; echo "%s complaining" >&2; exit %d'
-            % (tok, tok, tok, tok, r[1]))
+    # (the `exit` is not the last statement of the command: it ends the command all the same)
+    return ('echo %s >> "$TRACE"; echo "%s speaking"; /usr/bin/printf \'\\033[32m%s in colour\\033[0m\\n\'; echo "%s complaining" >&2; if true; then exit %d; fi; echo "%s not reached"'
+            % (tok, tok, tok, tok, r[1], tok))
 
 
 def job_cmd(c, per_var):
@@ -27,7 +28,7 @@ def job_cmd(c, per_var):
     arms = []
     for v, (r, out) in enumerate(per_var):
         arms.append("%d) %s%sexit %d;;" % (v, sh_printf(out), "/usr/bin/printf '\\033[31mred\\033[0m\\n'; " if (c + v) % 3 == 0 and not out else "", r[1]))
-    return 'echo "c${V:-0}.%d" >> "$TRACE"; case "${V:-0}" in %s esac' % (c, " ".join(arms))
+    return 'echo "c${V:-0}.%d" >> "$TRACE"; case "${V:-0}" in %s esac; echo "not reached"' % (c, " ".join(arms))
 
 
 def to_trtask(a, name="t"):
@@ -110,7 +111,8 @@ def rand_abstract(rng, ncmds, nvars, novar=False, codes=(1, 2, 126, 127, 128, 20
 def to_config_task(a):
     """the abstract task as a `tasks:` entry of a configuration file (trace file: $PROJ/out)"""
     t = to_trtask(a)
-    fix = lambda x: x.replace('"$TRACE"', '"$PROJ/out"')
+    # (written in a file, a command is often a small script whose first line is a comment)
+    fix = lambda x: "# what this does\n" + x.replace('"$TRACE"', '"$PROJ/out"')
     d = {"command": [fix(c) for c in t["commands"]], "allow_failure": bool(a["allow"])}
     if t["before"]:
         d["before"] = [fix(c) for c in t["before"]]
